@@ -49,8 +49,16 @@ D4(a, b, c, d) == <<a, b, c, d>>
 \* mv       at the inside points the operator really changes the tuple
 \* ins/out/edge/nul   representative points: inside the documented domain / far outside a
 \*          declared limit / at the limit / outside grid coverage with a null grid
+\* cor      corners of the VALUE space (finite numbers): points where the formulas degenerate (a pole, the
+\*          antipode of the centre, the image of a pole, a latitude beyond the pole, a height at the centre of
+\*          curvature, the largest finite number).  Whether such a tuple "can be transformed" is the operator's
+\*          business; what the statement fixes is the dichotomy: transformed (numbers) and counted, or NaN and
+\*          not counted.  No declared limit is needed for that.
+\* Two more classes are DERIVED from the first inside point (InfPts, UntPts below): an infinite value in an
+\* element that is read (rows with a declared limit only) and an infinite value or a negative zero in an element
+\* the operator does not work on (every row).
 Base == [rd |-> {}, wr |-> {}, dep |-> DNone, lim |-> FALSE, kin |-> "any", kout |-> "any", mv |-> FALSE,
-         ins |-> <<>>, out |-> <<>>, edge |-> <<>>, nul |-> <<>>, stk |-> "", k |-> 0]
+         ins |-> <<>>, out |-> <<>>, edge |-> <<>>, nul |-> <<>>, cor |-> <<>>, stk |-> "", k |-> 0]
 NoDir == [Base EXCEPT !.kin = "none", !.kout = "none"]
 
 PlaneF == [Base EXCEPT !.rd = {1, 2}, !.wr = {1, 2}, !.dep = DAll({1, 2}), !.kin = "geo", !.kout = "prj", !.mv = TRUE]
@@ -76,6 +84,12 @@ XFar     == <<"5192546.6254", "2997918.1920", "2167696.7878", "2020">>     \* PF
 HDeg     == <<"55", "12", "100", "2020.5">>
 HGrid    == <<"55", "11", "0", "2020">>
 HFar     == <<"20", "30", "0", "2020">>
+\* corners of the value space
+HugeLat  == <<"0.2", "1.7976931348623157e308", "0", "2020">>          \* the largest finite number as a latitude
+HugeE    == <<"1.7976931348623157e308", "6096400.0", "0", "2020">>    \* ... as an easting, as a northing
+HugeN    == <<"595970.0", "1.7976931348623157e308", "0", "2020">>
+PolesAt(lon) == << <<lon, "90d", "10", "2000">>, <<lon, "-90d", "10", "2000">>, <<lon, "91d", "10", "2000">> >>   \* both poles, a degree beyond
+MoloCentres == << <<"12d", "55d", "-6378620.226895029", "2020">>, <<"12d", "55d", "-6392823.244313335", "2020">> >>   \* h = -M(55), -N(55) on intl
 
 \* ---- the table -------------------------------------------------------------------
 Inv(id, def, F, I) == [id |-> id, def |-> def, ctx |-> "minimal", inv |-> TRUE, ident |-> FALSE, single |-> TRUE, F |-> F, I |-> I]
@@ -91,21 +105,23 @@ StackRow(id, def, what, k, els) ==
 \* plane projections --------------------------------------------------------------
 TmercRows == <<
   Inv("tmerc", "tmerc lon_0=9 k_0=0.9996 x_0=500000",
-      [PlaneF EXCEPT !.lim = TRUE, !.ins = <<PGeo>>, !.out = << <<"98d", "0d", "0", "2020">> >>, !.edge = << <<"90.7d", "0d", "0", "2020">> >>],
+      [PlaneF EXCEPT !.lim = TRUE, !.ins = <<PGeo>>, !.out = << <<"98d", "0d", "0", "2020">> >>, !.edge = << <<"90.7d", "0d", "0", "2020">> >>,
+                     !.cor = <<HugeLat, <<"9d", "90d", "0", "2020">>, <<"9d", "-90d", "0", "2020">> >>],
       [PlaneI EXCEPT !.lim = TRUE, !.ins = << <<"691875.632", "6098907.825", "100", "2020.5">> >>,
-                     !.out = << <<"25000000", "6000000", "0", "2020">> >>, !.edge = << <<"17190000", "0", "0", "2020">> >>]),
+                     !.out = << <<"25000000", "6000000", "0", "2020">> >>, !.edge = << <<"17190000", "0", "0", "2020">> >>, !.cor = <<HugeE, HugeN>>]),
   Inv("tmerc_lat0", "tmerc lat_0=49 lon_0=-2 k_0=0.9996012717 x_0=400000 y_0=-100000 ellps=airy",
       [PlaneF EXCEPT !.lim = TRUE, !.ins = <<PGeoW>>, !.out = << <<"87d", "0d", "0", "2020">> >>],
       [PlaneI EXCEPT !.lim = TRUE, !.ins = << <<"468653.0", "233681.0", "30", "2019">> >>, !.out = << <<"-24000000", "100000", "0", "2020">> >>]),
   Inv("utm_n", "utm zone=32",
-      [PlaneF EXCEPT !.lim = TRUE, !.ins = <<PGeo>>, !.out = << <<"98.5d", "1d", "0", "2020">> >>],
+      [PlaneF EXCEPT !.lim = TRUE, !.ins = <<PGeo>>, !.out = << <<"98.5d", "1d", "0", "2020">> >>, !.cor = <<HugeLat>>],
       [PlaneI EXCEPT !.lim = TRUE, !.ins = << <<"691875.632", "6098907.825", "100", "2020.5">> >>, !.out = << <<"30000000", "1000000", "0", "2020">> >>]),
   Inv("utm_s", "utm zone=32 south",
       [PlaneF EXCEPT !.lim = TRUE, !.ins = <<PGeoS>>, !.out = << <<"-80d", "-2d", "0", "2020">> >>],
       [PlaneI EXCEPT !.lim = TRUE, !.ins = << <<"1530148.162", "6294449.746", "50", "2015.25">> >>, !.out = << <<"-20000000", "9000000", "0", "2020">> >>]),
+  \* a quarter of a turn off the central meridian, on the equator: the easting is infinite (see "numbers" below)
   Inv("btmerc", "btmerc lon_0=9 k_0=0.9996 x_0=500000",
-      [PlaneF EXCEPT !.ins = << <<"10.5d", "55d", "100", "2020.5">> >>],
-      [PlaneI EXCEPT !.ins = << <<"595970.0", "6096400.0", "100", "2020.5">> >>]),
+      [PlaneF EXCEPT !.ins = << <<"10.5d", "55d", "100", "2020.5">> >>, !.cor = << <<"99d", "0d", "0", "2020">>, <<"-81d", "0d", "0", "2020">>, HugeLat >>],
+      [PlaneI EXCEPT !.ins = << <<"595970.0", "6096400.0", "100", "2020.5">> >>, !.cor = <<HugeE, HugeN>>]),
   Inv("butm_n", "butm zone=32",
       [PlaneF EXCEPT !.ins = << <<"10.5d", "55d", "100", "2020.5">> >>],
       [PlaneI EXCEPT !.ins = << <<"595970.0", "6096400.0", "100", "2020.5">> >>]),
@@ -116,53 +132,62 @@ TmercRows == <<
 
 CylRows == <<
   Inv("merc", "merc",
-      [PlaneF EXCEPT !.dep = DDiag, !.ins = <<PGeo, PGeoS>>],
+      [PlaneF EXCEPT !.dep = DDiag, !.ins = <<PGeo, PGeoS>>, !.cor = PolesAt("12d")],
       [PlaneI EXCEPT !.dep = DDiag, !.ins = << <<"1335833.890", "7326837.715", "100", "2020.5">> >>]),
   Inv("merc_ts", "merc lat_ts=56",
       [PlaneF EXCEPT !.dep = DDiag, !.ins = <<PGeo>>],
       [PlaneI EXCEPT !.dep = DDiag, !.ins = << <<"748713.258", "4106573.863", "100", "2020.5">> >>]),
   Inv("webmerc", "webmerc",
-      [PlaneF EXCEPT !.dep = DDiag, !.ins = <<PGeo>>],
+      [PlaneF EXCEPT !.dep = DDiag, !.ins = <<PGeo>>, !.cor = PolesAt("12d")],
       [PlaneI EXCEPT !.dep = DDiag, !.ins = << <<"1335833.890", "7361866.113", "100", "2020.5">> >>]),
   Inv("omerc_a", "omerc lonc=115 latc=4 alpha=53:18:56.9537 gamma_c=53:07:48.3685 k_0=0.99984 ellps=evrstSS",
-      [PlaneF EXCEPT !.ins = <<PBorneo>>],
-      [PlaneI EXCEPT !.ins = << <<"678634.418", "596863.847", "10", "2000">> >>]),
+      [PlaneF EXCEPT !.ins = <<PBorneo>>, !.cor = PolesAt("115.8d")],
+      \* the image of the south pole; a point a million kilometres away
+      [PlaneI EXCEPT !.ins = << <<"678634.418", "596863.847", "10", "2000">> >>,
+                     !.cor = << <<"-3797090.65608871", "-11575311.901500694", "10", "2000">>, <<"1e12", "596863.8", "10", "2000">> >>]),
   Inv("omerc_b", "omerc lonc=115 latc=4 alpha=53:18:56.9537 gamma_c=53:07:48.3685 k_0=0.99984 x_0=590476.87 y_0=442857.65 ellps=evrstSS variant",
-      [PlaneF EXCEPT !.ins = <<PBorneo>>],
-      [PlaneI EXCEPT !.ins = << <<"678634.412", "596863.841", "10", "2000">> >>]),
+      [PlaneF EXCEPT !.ins = <<PBorneo>>, !.cor = PolesAt("115.8d")],
+      [PlaneI EXCEPT !.ins = << <<"678634.412", "596863.841", "10", "2000">> >>,
+                     !.cor = << <<"-3797090.6614355883", "-11575311.907898858", "10", "2000">>, <<"1e12", "596863.8", "10", "2000">> >>]),
   \* the inverse signals non-convergence of its iteration: a declared limit without a representative point
   Inv("somerc", "somerc lat_0=46.9524055555556 lon_0=7.43958333333333 k_0=1 x_0=2600000 y_0=1200000 ellps=bessel",
-      [PlaneF EXCEPT !.ins = <<PSwiss>>],
-      [PlaneI EXCEPT !.lim = TRUE, !.ins = << <<"2642600.0", "1205500.0", "400", "2021">> >>])
+      [PlaneF EXCEPT !.ins = <<PSwiss>>, !.cor = PolesAt("8d") \o << <<"8d", "89.999999999d", "0", "2020">> >>],
+      \* the image of (8 E, 89.999999999 N)
+      [PlaneI EXCEPT !.lim = TRUE, !.ins = << <<"2642600.0", "1205500.0", "400", "2021">> >>,
+                     !.cor = << <<"2600000.00000147", "6526593.536164563", "0", "2020">> >> ]),
+  \* every parameter at its default: centred on (0, 0)
+  Inv("somerc_eq", "somerc",
+      [PlaneF EXCEPT !.ins = << <<"1d", "2d", "0", "2020">> >>, !.cor = PolesAt("1d") \o << <<"1d", "89.999999999d", "0", "2020">> >>],
+      [PlaneI EXCEPT !.lim = TRUE, !.ins = << <<"111319.491", "221194.077", "0", "2020">> >>])
 >>
 
 ConicRows == <<
   \* forward: the pole opposite to the cone is at infinity; inverse: signals non-convergence (no representative point)
   Inv("lcc_1sp", "lcc lat_1=57 lon_0=10",
-      [PlaneF EXCEPT !.lim = TRUE, !.ins = <<PGeo, PNPole>>, !.out = << <<"12d", "-90d", "0", "2020">> >>],
+      [PlaneF EXCEPT !.lim = TRUE, !.ins = <<PGeo, PNPole>>, !.out = << <<"12d", "-90d", "0", "2020">> >>, !.cor = << <<"12d", "91d", "0", "2020">> >>],
       [PlaneI EXCEPT !.lim = TRUE, !.ins = << <<"127900.0", "-221000.0", "100", "2020.5">> >>]),
   Inv("lcc_2sp", "lcc lat_1=33 lat_2=45 lon_0=10",
-      [PlaneF EXCEPT !.lim = TRUE, !.ins = <<PGeo>>, !.out = << <<"12d", "-90d", "0", "2020">> >>],
+      [PlaneF EXCEPT !.lim = TRUE, !.ins = <<PGeo>>, !.out = << <<"12d", "-90d", "0", "2020">> >>, !.cor = << <<"12d", "91d", "0", "2020">>, <<"12d", "90d", "0", "2020">> >>],
       [PlaneI EXCEPT !.lim = TRUE, !.ins = << <<"132822.092", "6418684.236", "100", "2020.5">> >>]),
   Inv("lcc_south", "lcc lat_1=-33 lat_2=-45 lon_0=20",
-      [PlaneF EXCEPT !.lim = TRUE, !.ins = << <<"22d", "-33d", "50", "2015.25">> >>, !.out = << <<"12d", "90d", "0", "2020">> >>],
+      [PlaneF EXCEPT !.lim = TRUE, !.ins = << <<"22d", "-33d", "50", "2015.25">> >>, !.out = << <<"12d", "90d", "0", "2020">> >>, !.cor = << <<"12d", "-91d", "0", "2020">>, <<"12d", "-90d", "0", "2020">> >>],
       [PlaneI EXCEPT !.lim = TRUE, !.ins = << <<"180000.0", "-3960000.0", "50", "2015.25">> >>])
 >>
 
 \* laea: the inverse is defined on a disc (radius 2 Rq, about 12742 km) around the centre
 LaeaRows == <<
   Inv("laea_oblique", "laea lat_0=52 lon_0=10 x_0=4321000 y_0=3210000",
-      [PlaneF EXCEPT !.ins = <<PGeo>>],
+      [PlaneF EXCEPT !.ins = <<PGeo>>, !.cor = << <<"-170d", "-52d", "0", "2020">>, <<"-170d", "-52.000000001d", "0", "2020">> >>],
       [PlaneI EXCEPT !.lim = TRUE, !.ins = << <<"4449020.354", "3545613.591", "100", "2020.5">>, <<"4321000", "3210000", "0", "2020">> >>,
                      !.out = << <<"24321000", "3210000", "0", "2020">> >>, !.edge = << <<"17063014", "3210000", "0", "2020">> >>]),
   Inv("laea_equatorial", "laea lon_0=10",
-      [PlaneF EXCEPT !.ins = << <<"12d", "5d", "100", "2020.5">> >>],
+      [PlaneF EXCEPT !.ins = << <<"12d", "5d", "100", "2020.5">> >>, !.cor = << <<"-170d", "0d", "0", "2020">>, <<"-170d", "0.000000001d", "0", "2020">> >>],
       [PlaneI EXCEPT !.lim = TRUE, !.ins = << <<"222000.0", "553000.0", "100", "2020.5">> >>, !.out = << <<"20000000", "1000", "0", "2020">> >>]),
   Inv("laea_north", "laea lat_0=90 lon_0=10",
-      [PlaneF EXCEPT !.ins = <<PGeo>>],
+      [PlaneF EXCEPT !.ins = <<PGeo>>, !.cor = << <<"12d", "-90d", "0", "2020">> >>],
       [PlaneI EXCEPT !.lim = TRUE, !.ins = << <<"134167.242", "-3842047.127", "100", "2020.5">> >>, !.out = << <<"20000000", "1000", "0", "2020">> >>]),
   Inv("laea_south", "laea lat_0=-90 lon_0=10",
-      [PlaneF EXCEPT !.ins = <<PGeoS>>],
+      [PlaneF EXCEPT !.ins = <<PGeoS>>, !.cor = << <<"12d", "90d", "0", "2020">> >>],
       [PlaneI EXCEPT !.lim = TRUE, !.ins = << <<"1010000.0", "5730000.0", "50", "2015.25">> >>, !.out = << <<"20000000", "1000", "0", "2020">> >>])
 >>
 
@@ -172,7 +197,7 @@ CartI == [SpaceF EXCEPT !.kout = "geo", !.dep = D4({1, 2}, {1, 2, 3}, {1, 2, 3},
 HelmDiag == [SpaceF EXCEPT !.dep = DDiag]
 HelmDyn  == [SpaceF EXCEPT !.rd = E, !.dep = DAll(E)]
 SpaceRows == <<
-  Inv("cart_intl", "cart ellps=intl", [CartF EXCEPT !.ins = <<PGeo, PNPole>>], [CartI EXCEPT !.ins = <<XGeoIntl, XAxis>>]),
+  Inv("cart_intl", "cart ellps=intl", [CartF EXCEPT !.ins = <<PGeo, PNPole>>], [CartI EXCEPT !.ins = <<XGeoIntl, XAxis>>, !.cor = << <<"0", "0", "0", "2020">> >>]),
   Inv("cart", "cart", [CartF EXCEPT !.ins = <<PGeoS>>], [CartI EXCEPT !.ins = <<XGeo>>]),
   Inv("helmert_translation", "helmert x=-87 y=-96 z=-120", [HelmDiag EXCEPT !.ins = <<XGeo>>], [HelmDiag EXCEPT !.ins = <<XGeo>>]),
   Inv("helmert_7", "helmert convention=position_vector x=0.06155 rx=-0.0394924 y=-0.01087 ry=-0.0327221 z=-0.04019 rz=-0.0328979 s=-0.009994",
@@ -188,10 +213,10 @@ SpaceRows == <<
   Inv("helmert_tobs", "helmert x=1 y=2 z=3 dx=0.1 dy=0.2 dz=0.3 t_epoch=2010 t_obs=2015",
       [HelmDiag EXCEPT !.ins = <<XGeo>>], [HelmDiag EXCEPT !.ins = <<XGeo>>]),
   Inv("molodensky", "molodensky ellps_0=intl ellps_1=GRS80 dx=-87 dy=-96 dz=-120",
-      [SpaceF EXCEPT !.kin = "geo", !.kout = "geo", !.ins = <<PGeo>>], [SpaceF EXCEPT !.kin = "geo", !.kout = "geo", !.ins = <<PGeo>>]),
+      [SpaceF EXCEPT !.kin = "geo", !.kout = "geo", !.ins = <<PGeo>>, !.cor = MoloCentres], [SpaceF EXCEPT !.kin = "geo", !.kout = "geo", !.ins = <<PGeo>>, !.cor = MoloCentres]),
   Inv("molodensky_abridged", "molodensky ellps_0=intl ellps_1=GRS80 dx=-87 dy=-96 dz=-120 abridged",
-      [SpaceF EXCEPT !.kin = "geo", !.kout = "geo", !.dep = D4({1, 2}, {1, 2}, {1, 2, 3}, {}), !.ins = <<PGeo>>],
-      [SpaceF EXCEPT !.kin = "geo", !.kout = "geo", !.dep = D4({1, 2}, {1, 2}, {1, 2, 3}, {}), !.ins = <<PGeo>>])
+      [SpaceF EXCEPT !.kin = "geo", !.kout = "geo", !.dep = D4({1, 2}, {1, 2}, {1, 2, 3}, {}), !.ins = <<PGeo>>, !.cor = MoloCentres],
+      [SpaceF EXCEPT !.kin = "geo", !.kout = "geo", !.dep = D4({1, 2}, {1, 2}, {1, 2, 3}, {}), !.ins = <<PGeo>>, !.cor = MoloCentres])
 >>
 
 \* grid based operators (Plain, grids written by the harness) ---------------------
@@ -316,8 +341,31 @@ BuiltinNames == {"adapt", "addone", "axisswap", "btmerc", "butm", "cart", "curva
 
 DirOf(r, d) == IF d = "F" THEN r.F ELSE r.I
 Supported(r, d) == d = "F" \/ r.inv
-Classes == <<"in", "out", "edge", "nul">>
+\* ---- derived value classes -----------------------------------------------------
+\* "inf": the first inside point with +inf / -inf in ONE element that is read - for directions with a declared
+\* limit only: there an infinite coordinate is beyond every limit ("far outside"), or at least it is a tuple of which
+\* the statement's dichotomy can be asked (see Outcomes).  Operators without a declared limit are not asked: the
+\* statement speaks of NaN inputs, not of infinite ones, and an affine operator (helmert, addone, unitconvert,
+\* adapt, axisswap) legitimately delivers inf - inf = NaN for them.
+\* "unt": the first inside point with +inf / -inf / -0.0 in ONE element the operator does not work on (neither
+\* read nor written): the tuple is as much inside the domain as the point it was made from.
+ElSeq(S) == SelectSeq(<<1, 2, 3, 4>>, LAMBDA e : e \in S)
+InfVals == <<"inf", "-inf">>
+UntVals == <<"inf", "-inf", "-0.0">>
+Spread(pt, els, vals) ==     \* one point per (element of els, value of vals): pt with that element replaced
+    [k \in 1..(Len(els) * Len(vals)) |-> [pt EXCEPT ![els[((k - 1) \div Len(vals)) + 1]] = vals[((k - 1) % Len(vals)) + 1]]]
+SpreadEl(els, vals, k) == els[((k - 1) \div Len(vals)) + 1]        \* the element replaced in point k
+InfEls(dr) == IF dr.lim /\ dr.stk = "" /\ Len(dr.ins) > 0 THEN ElSeq(dr.rd) ELSE <<>>
+UntEls(dr) == IF dr.stk = "" /\ Len(dr.ins) > 0 THEN ElSeq(E \ (dr.rd \cup dr.wr)) ELSE <<>>
+InfPts(dr) == IF Len(InfEls(dr)) = 0 THEN <<>> ELSE Spread(dr.ins[1], InfEls(dr), InfVals)
+UntPts(dr) == IF Len(UntEls(dr)) = 0 THEN <<>> ELSE Spread(dr.ins[1], UntEls(dr), UntVals)
+\* the element of a derived point that carries the special value (0 for the other classes): a NaN mask never covers it
+SpecialEl(dr, cls, pi) == CASE cls = "inf" -> SpreadEl(InfEls(dr), InfVals, pi) [] cls = "unt" -> SpreadEl(UntEls(dr), UntVals, pi) [] OTHER -> 0
+
+Classes == <<"in", "out", "edge", "nul", "cor", "inf", "unt">>
+ClassSet == {Classes[i] : i \in 1..Len(Classes)}
 PtsOf(dr, cls) == CASE cls = "in" -> dr.ins [] cls = "out" -> dr.out [] cls = "edge" -> dr.edge [] cls = "nul" -> dr.nul
+                    [] cls = "cor" -> dr.cor [] cls = "inf" -> InfPts(dr) [] cls = "unt" -> UntPts(dr)
 
 \* ---- well-formedness of the table ----------------------------------------------
 IsPoint(p) == DOMAIN p = 1..4
@@ -325,7 +373,13 @@ DirOK(dr) ==
     /\ dr.rd \subseteq E /\ dr.wr \subseteq E
     /\ \A o \in dr.wr : dr.dep[o] \subseteq dr.rd
     /\ (Len(dr.out) > 0 \/ Len(dr.edge) > 0 \/ Len(dr.nul) > 0) => dr.lim      \* no invented limits: points beyond a limit only where one is declared
-    /\ \A c \in {"in", "out", "edge", "nul"} : \A i \in 1..Len(PtsOf(dr, c)) : IsPoint(PtsOf(dr, c)[i])
+    /\ \A c \in ClassSet : \A i \in 1..Len(PtsOf(dr, c)) : IsPoint(PtsOf(dr, c)[i])
+    \* the derived points differ from the inside point in exactly one element
+    /\ \A c \in {"inf", "unt"} : \A i \in 1..Len(PtsOf(dr, c)) :
+          LET e == SpecialEl(dr, c, i) IN /\ e \in E /\ (c = "inf" => e \in dr.rd) /\ (c = "unt" => e \notin dr.rd \cup dr.wr)
+                                         /\ \A x \in E \ {e} : PtsOf(dr, c)[i][x] = dr.ins[1][x]
+                                         /\ PtsOf(dr, c)[i][e] \in {"inf", "-inf", "-0.0"}
+    /\ Len(InfPts(dr)) > 0 => dr.lim
 TableOK ==
     /\ \A i, j \in 1..NRows : i # j => Rows[i].id # Rows[j].id
     /\ \A i \in 1..NRows : LET r == Rows[i] IN
@@ -363,6 +417,15 @@ Outcomes(r, d, cls, M) ==
                 [] cls = "out"  -> {Failed(dr, M)}
                 [] cls = "nul"  -> {Passed}
                 [] cls = "edge" -> {Succ(dr, M, FALSE), Failed(dr, M)}
+                \* a corner of the value space: transformed (numbers in the written elements) and counted, or NaN and not
+                \* counted - a counted tuple with NaN in a written element although nothing it read was NaN has not
+                \* been transformed: its failure is not visible in the count
+                [] cls = "cor"  -> {Succ(dr, M, FALSE), Failed(dr, M)}
+                \* an infinite value in an element that is read, where a limit is declared: the same dichotomy (with a
+                \* null grid a tuple outside coverage is passed through: Passed is Succ with nothing changed)
+                [] cls = "inf"  -> {Succ(dr, M, FALSE), Failed(dr, M)}
+                \* an infinite value or a negative zero in an element the operator does not work on: inside
+                [] cls = "unt"  -> {Succ(dr, M, dr.mv)}
          \* NaN in an element that is read: counted or not is not prescribed;
          \* with a null grid a tuple that cannot be located is passed through
          ELSE IF Len(dr.nul) > 0 THEN {Succ(dr, M, FALSE), Failed(dr, M), Passed}
@@ -421,7 +484,9 @@ OutcomeSane(r, d, cls, M) ==
          \* a NaN input element yields NaN in every output element that depends on it
          /\ \A o \in O \ {Passed} : o.c => \A e \in dr.wr : Forced(dr, M, e) => o.el[e] = "nan"
          \* inside and nothing read is NaN: transformed and counted, written elements are numbers
-         /\ (cls = "in" /\ Clean(dr, M)) => (Counted(O) = "yes" /\ \A o \in O : \A e \in dr.wr : o.el[e] = "new")
+         /\ (cls \in {"in", "unt"} /\ Clean(dr, M)) => (Counted(O) = "yes" /\ \A o \in O : \A e \in dr.wr : o.el[e] = "new")
+         \* nothing read is NaN: a counted tuple has numbers in every element the operator writes, whatever the class
+         /\ Clean(dr, M) => \A o \in O \ {Passed} : o.c => \A e \in dr.wr : o.el[e] = "new"
          \* far outside a declared limit: never counted, never looking valid
          /\ (cls = "out" /\ Clean(dr, M)) => (Counted(O) = "no" /\ \A o \in O : o.sn)
     /\ ~Supported(r, d) => Counted(O) = "no"
@@ -429,7 +494,9 @@ OutcomeSane(r, d, cls, M) ==
 \* the cases of one (row, direction): class x point x mask
 CasesOf(r, d) ==
     IF ~Supported(r, d) THEN {[cls |-> "in", pi |-> i, M |-> M] : i \in 1..Len(r.F.ins), M \in Masks}     \* the forward points, applied in reverse
-    ELSE UNION {{[cls |-> c, pi |-> i, M |-> M] : i \in 1..Len(PtsOf(DirOf(r, d), c)), M \in Masks} : c \in {"in", "out", "edge", "nul"}}
+    ELSE LET dr == DirOf(r, d) IN
+         UNION {{cs \in {[cls |-> c, pi |-> i, M |-> M] : i \in 1..Len(PtsOf(dr, c)), M \in Masks} : SpecialEl(dr, c, cs.pi) \notin cs.M}
+                : c \in ClassSet}
 PointOf(r, d, cs) == IF ~Supported(r, d) THEN r.F.ins[cs.pi] ELSE PtsOf(DirOf(r, d), cs.cls)[cs.pi]
 
 \* a set of tuples in one call: bounds of the count
